@@ -46,6 +46,84 @@ def gate(t: T):
     return None
 
 
+class _Undecided(Exception):
+    pass
+
+
+def _ceval(repo: Repo, t: T):
+    """Value of a closed term over constants (comparisons, and/or/not, arithmetic, range(), tuples, module constants)."""
+    from .. import consteval
+    if t.op == "const":
+        return t.a[0]
+    if t.op == "cmp":
+        l, r = _ceval(repo, t.a[1]), _ceval(repo, t.a[2])
+        try:
+            return {"==": lambda: l == r, "!=": lambda: l != r, "<": lambda: l < r, "<=": lambda: l <= r, ">": lambda: l > r,
+                    ">=": lambda: l >= r, "in": lambda: l in r, "not in": lambda: l not in r}[t.a[0]]()
+        except (KeyError, TypeError):
+            raise _Undecided(sym.pretty(t)[:60])
+    if t.op == "bool":
+        vals = [_ceval(repo, x) for x in t.a[1]]
+        return all(vals) if t.a[0] == "and" else any(vals)
+    if t.op == "not":
+        return not _ceval(repo, t.a[0])
+    if t.op == "bin":
+        f_ = sym._fold_bin(t.a[0], _ceval(repo, t.a[1]), _ceval(repo, t.a[2]))
+        if f_ is None:
+            raise _Undecided(sym.pretty(t)[:60])
+        return f_
+    if t.op in ("tuple", "list", "set"):
+        return tuple(_ceval(repo, x) for x in t.a[0])
+    if t.op == "call" and t.a[0] == T("builtin", ("range",)) and not t.a[2] and 1 <= len(t.a[1]) <= 3:
+        return range(*[_ceval(repo, x) for x in t.a[1]])
+    if t.op == "call" and t.a[0].op == "builtin" and t.a[0].a[0] in ("frozenset", "set", "tuple", "list") and len(t.a[1]) == 1:
+        return tuple(_ceval(repo, t.a[1][0]))
+    if t.op == "global" and t.a[0].startswith("pykdebugparser."):
+        found = repo.lookup(t.a[0])
+        if found and found[0] == "const":
+            v = consteval.evaluate(repo, found[1], found[2])
+            if v is not consteval.UNKNOWN:
+                return v
+    raise _Undecided(sym.pretty(t)[:60])
+
+
+def check_fault_selection(repo: Repo, run: Run, D, e, f) -> None:
+    """R1: the records picked out of the fault window are exactly the real-fault-address records - each code of that group the
+    registry has a decoder for satisfies the selection condition, and no code of the bundled table outside the group does."""
+    M = e.module.name
+    sels = []
+    for fld in ("pid", "caller_prot"):
+        v = f.get(fld)
+        for x in (sym.walk(v) if v is not None else ()):
+            if x.op == "call" and x.a[0] == T("attr", (PARSER, "parse_event_list")) and len(x.a[1]) == 1 and x.a[1][0].op == "comp" \
+                    and len(x.a[1][0].a[2]) == 1 and x.a[1][0] not in sels:
+                sels.append(x.a[1][0])
+    if len(sels) != 1:
+        return                  # (the shape obligations above have already said so)
+    elem, _, conds = sels[0].a[2][0]
+    registered = {en.key for en in D.entries()}
+    group = [(i, n) for i, n, _ in repo.trace_codes_lines() if n.startswith("RealFaultAddress")]
+    if not group:
+        raise AnalysisError("anchor vanished: no RealFaultAddress* codes in the bundled table")
+
+    def selected(ident: int):
+        sub = {T("attr", (elem, "eventid")): const(ident)}
+        return all(bool(_ceval(repo, sym.subst(c, sub))) for c in conds)
+    try:
+        missed = [n for i, n in group if n in registered and not selected(i)]
+        group_ids = {i for i, _ in group}
+        extra = [n for i, n, _ in repo.trace_codes_lines() if i not in group_ids and selected(i)][:3]
+    except _Undecided as ex:
+        run.floor_failures.append(f"C20/R1: the condition selecting the nested real-fault records is not evaluated for a given code: {ex}")
+        return
+    run.ob("R1", M, e.func_name, "every decodable real-fault-address kind is selected from the window", not missed,
+           f"the selection {[sym.pretty(c)[:70] for c in conds]} does not pick {missed}: a fault served by such a record loses its pid "
+           f"and protection (or takes them from a later record)", facts={"group": [n for _, n in group]}, line=e.func.lineno,
+           witness=None if not missed else f"a MACH_vmfault window whose nested record is {missed[0]}")
+    run.ob("R1", M, e.func_name, "only real-fault-address records are selected", not extra,
+           f"the selection also picks {extra}: pid and protection are then read from a record of another kind", nontrivial=False)
+
+
 def check(repo: Repo, run: Run) -> None:
     # a composite trace is computed from "the records of its window": that the window of an END is exactly the records of
     # the thread from the most recent START of that code is the pairing machine's contract (C04 K3-K5)
@@ -101,6 +179,9 @@ def check(repo: Repo, run: Run) -> None:
                               f"selection is non-empty and the decode result is not None ({why})",
                facts={"term": sym.pretty(v)[:300] if v is not None else None}, line=e.func.lineno,
                witness="a fault window whose nested real-fault record is of a kind without a decoder, or with none at all")
+    # which records the selection picks: every real-fault-address code the tool has a decoder for, and no other code of
+    # the bundled table
+    check_fault_selection(repo, run, D, e, f)
     # rendering shows pid/prot only when both present
     if d.segs is not None:
         shown_unguarded = False
